@@ -291,6 +291,7 @@ def build(sim, typ):
             d["huge"] = [total, nlen]
         elif m == "over_answer":
             app.over_answer = sim.pick("over.n", [1, 2, 5, 16, 255])
+            app.over_where = sim.pick("over.where", ["data", "nlen", "any"])
         elif m == "nlen_big":
             f = app.files[app.ndef_fid]
             f[0:case.nlen_size] = sim.pick("nlen", [0xFFFF, len(f), len(f) - 1, 0x8000]).to_bytes(4, "big")[-case.nlen_size:]
